@@ -753,8 +753,8 @@ pub fn run(ctx: &Ctx) -> (Report, PropertyMeta) {
         crate::fuzzing::campaign(ctx, &mut report, "wire", 240);
     }
     let total = report.evaluations;
-    health(&mut report, "has-long-frame", total, 100);
-    health(&mut report, "has-empty-frame", total, 50);
+    health(&mut report, "has-long-frame", total, 40);
+    health(&mut report, "has-empty-frame", total, 20);
     health(&mut report, "long-command", total, 20);
 
     let meta = PropertyMeta {
